@@ -222,7 +222,7 @@ def gen_settings(rng, throttle=None):
 
 def c11_events(ctx, binp):
     """e2e runs for C11's second sentence.  Returns (list of run records, stats, design-run info)."""
-    rng, tier = ctx.rng, ctx.tier
+    rng, tier = ctx.sub_rng("fam_e2e.1"), ctx.tier
     runs = []
     nruns = 6 if tier == "quick" else 60
     for k in range(nruns):
@@ -371,7 +371,7 @@ def c05_wiring(ctx, binp):
     """main.go wiring of the throttle with the real clock: activate=true with a tiny bucket and a refill that cannot
     matter in the run's duration => frames stored in motion files <= bucket-size*fps (+2), a 'throttle' event is queued
     on the bus, and no recording restarts (a restart needs (min+preview)*fps tokens, none are earned)."""
-    rng = ctx.rng
+    rng = ctx.sub_rng("fam_e2e.2")
     out = []
     for k in range(2 if ctx.tier == "quick" else 10):
         fps = rng.choice([2, 3, 9])
@@ -407,7 +407,7 @@ def thr_probe_runs(ctx, binp):
     Processor.tla with the no-refill throttle and predicts the files; the budget and full-clip clauses are evaluated
     directly on the files."""
     import random
-    rng = ctx.rng
+    rng = ctx.sub_rng("fam_e2e.3")
     runs = []
     for k in range(2 if ctx.tier == "quick" else 16):
         fps = rng.choice([1, 2, 3]) if k % 4 else 9
@@ -443,7 +443,7 @@ def thr_refill_runs(ctx, binp):
     """C05 with the real clock: continuous motion for several real seconds with a short refill period.  One-sided:
     frames stored <= bucket + (min+preview)*fps/min-refill * elapsed * 1.01 + 2, elapsed measured by the driver from
     dialling the frame socket to the end of the stream (an upper bound of the throttle's lifetime)."""
-    rng = ctx.rng
+    rng = ctx.sub_rng("fam_e2e.4")
     out = []
     for k in range(2 if ctx.tier == "quick" else 8):
         fps = rng.choice([3, 9])
@@ -475,7 +475,7 @@ def c17_runs(ctx, binp):
     """C17 end to end through runMain: a test recording requested in the middle of a motion recording (and one while
     idle) must give one extra file of 21 consecutive frames each and leave the motion and continuous files exactly as
     predicted (the three recorders are separate objects wired in handleConn)."""
-    rng = ctx.rng
+    rng = ctx.sub_rng("fam_e2e.5")
     runs = []
     for k in range(2 if ctx.tier == "quick" else 12):
         fps = rng.choice([2, 3])
@@ -526,7 +526,7 @@ def c04_window_runs(ctx, binp):
     (recordings as without a window) and one that opens in an hour (motion, but nothing may be recorded); the
     continuous recorder is not gated by the window."""
     import time
-    rng = ctx.rng
+    rng = ctx.sub_rng("fam_e2e.6")
     runs = []
     for k in ([0, 1, 3] if ctx.tier == "quick" else range(12)):
         settings, fps = gen_settings(rng)
@@ -559,7 +559,7 @@ def c04_window_runs(ctx, binp):
 def cfgwatch_runs(ctx, binp):
     """Beyond the listed properties (ConfigWatch.tla): config.toml is rewritten while runMain runs.  Returns the trace
     for ConfigWatchTrace.tla, or None when the file watcher does not work in this sandbox."""
-    rng = ctx.rng
+    rng = ctx.sub_rng("fam_e2e.7")
     trace = []
     base = dict(min=1, max=2, preview=1, const=False, throttle=False, motion=dict(FIXED_MOTION, **{"trigger-frames": 1}), device="dev", deviceid=7)
     def variant(r, m, valid):
@@ -600,7 +600,7 @@ def cfgwatch_runs(ctx, binp):
 def c03_disconnect_runs(ctx, binp):
     """C03 at the daemon's edges: a camera connection that ends in the middle of a motion recording.  That recording
     reached neither limit, so nothing may be published for it; the next connection starts afresh."""
-    rng = ctx.rng
+    rng = ctx.sub_rng("fam_e2e.8")
     runs = []
     for k in range(2 if ctx.tier == "quick" else 10):
         settings, fps = gen_settings(rng)
@@ -630,7 +630,7 @@ def c17_periodic_run(ctx, binp):
     """Beyond the listed request path: with no recording window the daemon makes a test recording of its own one minute
     after the first camera connection (snapshotRecordingTriggers -> newSnapshotRecording).  One slow stream of ~75 s;
     SystemTrace.tla expects exactly one extra file of 21 consecutive frames next to the predicted motion files."""
-    rng = ctx.rng
+    rng = ctx.sub_rng("fam_e2e.9")
     fps = 3
     settings = dict(min=1, max=5, preview=1, const=False, throttle=False, motion=dict(FIXED_MOTION, **{"trigger-frames": 2}), device="dev", deviceid=7)
     w, h = 4, 3
@@ -659,7 +659,7 @@ def c17_reconnect_runs(ctx, binp):
     """C17 across camera reconnects within one daemon run (and a daemon restart on the same output directory is the
     prefiles case of C10): the continuous recorder is set up anew by every handleConn, its directory already exists
     from the second connection on; every frame of every connection must land in exactly one continuous file."""
-    rng = ctx.rng
+    rng = ctx.sub_rng("fam_e2e.10")
     runs = []
     for k in range(2 if ctx.tier == "quick" else 10):
         settings, fps = gen_settings(rng)
@@ -691,7 +691,7 @@ def c17_reconnect_runs(ctx, binp):
 def c13_runs(ctx, binp):
     """C13 at the daemon: bad Lepton / Boson frames inside socket streams; the files must be the predicted ones, every
     bad frame must be reported as a 'bad-thermal-frame' event and answered with a camera restart request."""
-    rng = ctx.rng
+    rng = ctx.sub_rng("fam_e2e.11")
     runs = []
     for k in range(3 if ctx.tier == "quick" else 30):
         settings, fps = gen_settings(rng)
@@ -713,7 +713,7 @@ def c13_runs(ctx, binp):
 def c10_startup(ctx, binp, const=False):
     """C10 through runMain: debris of a crashed run (temp + scratch files, next to a complete recording) is in the output
     directory when the daemon starts; before the first recording is made only the complete recording may be left."""
-    rng = ctx.rng
+    rng = ctx.sub_rng("fam_e2e.12")
     settings, fps = gen_settings(rng)
     settings["const"] = const          # the debris in the output directory goes whatever other recorders are configured
     conn, ev, fid = build_conn(rng, settings, 4, 3, fps, "lepton3", 1, 12, with_clear=False)
